@@ -20,9 +20,11 @@ type GCrypto struct {
 
 // GDyn is a dynamic crypto map entry (peer known by certificate name).
 type GDyn struct {
-	Seq  int
-	Name string
-	ACL  *GACL
+	Seq   int
+	Name  string
+	ACL   *GACL
+	IKEv2 bool   // uses an ikev2 ipsec-proposal instead of the ikev1 transform-set
+	Prop  string // name of that proposal ("" = PropDyn)
 }
 
 type GTunnelIP struct {
@@ -85,7 +87,7 @@ func (v *GVPN) clone() *GVPN {
 		n.Entries = append(n.Entries, &c)
 	}
 	for _, dy := range v.Dyn {
-		n.Dyn = append(n.Dyn, &GDyn{dy.Seq, dy.Name, cloneACL(dy.ACL)})
+		n.Dyn = append(n.Dyn, &GDyn{dy.Seq, dy.Name, cloneACL(dy.ACL), dy.IKEv2, dy.Prop})
 	}
 	for _, t := range v.Tunnels {
 		n.Tunnels = append(n.Tunnels, &GTunnelIP{t.IP, append([]string{}, t.Attrs...)})
@@ -159,6 +161,20 @@ func (v *GVPN) Text() string {
 	}
 	for _, dy := range v.Dyn {
 		printACL(&b, dy.ACL, false)
+		if dy.IKEv2 {
+			prop := dy.Prop
+			if prop == "" {
+				prop = "PropDyn"
+			}
+			if !tsSeen[prop] {
+				tsSeen[prop] = true
+				fmt.Fprintf(&b, "crypto ipsec ikev2 ipsec-proposal %s\n protocol esp encryption aes-192\n protocol esp integrity sha-1\n", prop)
+			}
+			fmt.Fprintf(&b, "crypto dynamic-map %s 20 match address %s\n", dy.Name, dy.ACL.Name)
+			fmt.Fprintf(&b, "crypto dynamic-map %s 20 set ikev2 ipsec-proposal %s\n", dy.Name, prop)
+			fmt.Fprintf(&b, "crypto map %s %d ipsec-isakmp dynamic %s\n", v.MapName, dy.Seq, dy.Name)
+			continue
+		}
 		if !tsSeen["TransDyn"] {
 			tsSeen["TransDyn"] = true
 			b.WriteString("crypto ipsec ikev1 transform-set TransDyn esp-aes esp-sha-hmac\n")
@@ -287,7 +303,7 @@ func (g *Gen) TargetVPN(intf string) *GVPN {
 		for i := 1 + g.Rng.Intn(3); i > 0; i-- {
 			k := len(v.Dyn)
 			v.Dyn = append(v.Dyn, &GDyn{Seq: 65535 - k, Name: fmt.Sprintf("name%d@example.com", k+1),
-				ACL: &GACL{fmt.Sprintf("crypto-%s-%d", intf, 65535-k), []string{g.plainACE()}}})
+				ACL: &GACL{fmt.Sprintf("crypto-%s-%d", intf, 65535-k), []string{g.plainACE()}}, IKEv2: g.Rng.Intn(3) == 0})
 		}
 	}
 	for i := g.Rng.Intn(3); i > 0; i-- {
@@ -400,6 +416,9 @@ func (g *Gen) EditVPN(v *GVPN) string {
 		}
 		for _, dy := range v.Dyn {
 			ren(dy.ACL)
+			if dy.IKEv2 && dy.Prop == "" {
+				dy.Prop = "PropDyn" + sfx
+			}
 		}
 		for _, e := range v.Entries {
 			ren(e.ACL)
